@@ -44,7 +44,7 @@ FLAVOURS = {
     "plain": [STD, "-O1", "-g", "-gdwarf-4"],   # valgrind 3.19 cannot read clang's DWARF 5
 }
 ASAN_OPTIONS = ("halt_on_error=1:abort_on_error=1:detect_leaks=1:max_allocation_size_mb=512:"
-                "handle_abort=1:allocator_may_return_null=0")
+                "handle_abort=1")   # handle_abort: stack trace for assert() / terminate
 UBSAN_OPTIONS = "print_stacktrace=1:halt_on_error=1"
 VALGRIND_EXIT = 97
 VALGRIND = ["valgrind", "-q", "--error-exitcode=%d" % VALGRIND_EXIT, "--exit-on-first-error=yes",
@@ -453,12 +453,37 @@ class CxxHarness:
         self.timings = {}
         self.exit_reports = []   # sanitizer / valgrind output that could not be tied to an entry
         self.warnings = []
+        self._types = None
 
     # ---------------------------------------------------------------- model queries
     def types(self):
-        """ids of packet / struct declarations the driver covers"""
-        return [d["id"] for d in self.file["declarations"]
-                if d["kind"] in ("packet_declaration", "struct_declaration") and d["id"] in self.dm]
+        """ids of packet / struct declarations the driver covers: not excluded, and neither is
+        anything they refer to (parents, field and element types)"""
+        if self._types is None:
+            ok = {}
+
+            def usable(id, depth=0):
+                if id in ok:
+                    return ok[id]
+                d = self.dm.get(id)
+                if d is None or depth > 64:
+                    return False
+                ok[id] = True   # recursive element types
+                r = d["kind"] in ("packet_declaration", "struct_declaration", "enum_declaration")
+                if r and d.get("parent_id") is not None:
+                    r = usable(d["parent_id"], depth + 1)
+                for fl in d.get("fields", ()):
+                    if r and fl["kind"] in ("typedef_field", "array_field") and fl.get("type_id") is not None:
+                        r = usable(fl["type_id"], depth + 1)
+                    if r and fl["kind"] == "fixed_field" and "enum_id" in fl:
+                        r = usable(fl["enum_id"], depth + 1)
+                ok[id] = r
+                return r
+
+            self._types = [d["id"] for d in self.file["declarations"]
+                           if d["kind"] in ("packet_declaration", "struct_declaration")
+                           and d.get("id") in self.dm and usable(d["id"])]
+        return list(self._types)
 
     def enums(self):
         return [d["id"] for d in self.file["declarations"]
@@ -543,6 +568,11 @@ class CxxHarness:
         self.timings["generate"] = time.time() - t0
         if rc != 0:
             raise CxxError("pdlc --output-format cxx failed (%s):\n%s" % (rc, err[-6000:]))
+        # the banner names the (pid-specific) scratch input: keep the text stable so that the
+        # object cache works across runs
+        out = re.sub(r"\A// File generated from [^\n]*\n//   pdlc --output-format cxx [^\n]*\n",
+                     "// File generated from %s.pdl, with the command\n//   pdlc --output-format cxx %s.pdl\n"
+                     % (self.name, self.name), out, count=1)
         os.makedirs(self.dir, exist_ok=True)
         build._write_if_changed(os.path.join(self.dir, self.header_name), out)
         self.header = out
